@@ -48,6 +48,7 @@ def write(mod, total, tier, seed, wall, build_status, nshards):
         'axis_marginals': axes,
         'shards': nshards,
         'known_finding_hits': dict(total.known),
+        'violation_kinds': dict(total.vkinds),
         'how_validated': ('every enumerated model state/transition is executed on the real '
                           'regions code imported from the working tree in the same loop and compared '
                           'with the reference model; there is no separate model run'),
